@@ -100,6 +100,7 @@ func init() {
 			c.rulesC14(a, c.lockAnalysis())
 			c.rulesC14chk(a)
 			c.rulesR3own()
+			c.rulesR3misc()
 		}
 	})
 }
@@ -116,6 +117,7 @@ func init() {
 			c.rulesC06x(a)
 			c.rulesC06reuse()
 			c.rulesR3subs()
+			c.rulesR3misc()
 			c.rulesR3handlers()
 		}
 	})
@@ -128,6 +130,8 @@ func init() {
 		if a.ok {
 			c.rulesC13(a, c.lockAnalysis())
 			c.rulesC13grace()
+			c.rulesR3parent()
+			c.rulesR3misc()
 			c.rulesC13send(c.lockAnalysis())
 		}
 	})
@@ -187,6 +191,7 @@ func init() {
 		c.rulesC09(c.lockAnalysis())
 		c.rulesC09x()
 		c.rulesR3push()
+		c.rulesR3rpc2()
 	})
 	register("C10", propInfo{
 		Explanation: "Narrow structural claim (round-trip equality is value level and is not decided): (narrow) no unguarded narrowing conversion of tick / queue-tick / machine-tick data in the update encoder; (space) both encoders index the snapshots' mTime, and compare against their length, only through the pushed index, and agree with each other; (sum) one Checksum used by producer and verifier; (dec) the decoder bounds-checks each index; (chk) the client applies the decoded clock only under Checksum(post-update values) == message checksum and returns false on mismatch.",
@@ -207,6 +212,7 @@ func init() {
 	}, func(c *Ctx) {
 		c.rulesC17()
 		c.rulesC17ord()
+		c.rulesR3misc()
 	})
 }
 
